@@ -10,6 +10,9 @@
    constraint passed the argument checks of fix_gate / forbid_wire. *)
 Require Import Cirbo.Model.Base Cirbo.Model.Gate Cirbo.Model.Den Cirbo.Model.Circuit.
 Require Import Cirbo.Model.Search Cirbo.Model.SearchCircuit.
+(* SearchCases holds the check functions of the correspondence case files; required here so that it is
+   rebuilt together with the property whenever a generated table changes *)
+Require Cirbo.Model.SearchCases.
 Require Import Cirbo.Generated.SearchTables Cirbo.Generated.GateTypes.
 Require Import Cirbo.Proofs.SearchTablesFacts Cirbo.Proofs.SearchFacts Cirbo.Proofs.SearchSound
                Cirbo.Proofs.SearchComplete Cirbo.Proofs.SearchSolve Cirbo.Proofs.SearchTyped.
